@@ -37,6 +37,49 @@ type expT struct {
 	Reg  []string          `json:"reg"`
 	Sess []string          `json:"sess"`
 	Tcl  []string          `json:"tcl"`
+	Bf   struct {          // protector configuration of the modelled server
+		Max  int `json:"max"`  // MaxFailures
+		Perm int `json:"perm"` // PermanentBanAt (0 = out of reach)
+	} `json:"bf"`
+}
+
+// bfConfig is the protector configuration a behaviour asks for (its first projection carries it); the clean-up
+// ticker never fires on its own inside a behaviour - the model's Cleanup action runs the pass.
+func bfConfig(e *expT) *security.BruteForceConfig {
+	c := &security.BruteForceConfig{MaxFailures: maxFail, TimeWindow: time.Hour, BanDuration: time.Hour,
+		PermanentBanAt: 1000, CleanupInterval: time.Hour}
+	if e != nil && e.Bf.Max > 0 {
+		c.MaxFailures = e.Bf.Max
+	}
+	if e != nil && e.Bf.Perm > 0 {
+		c.PermanentBanAt = e.Bf.Perm
+	}
+	return c
+}
+
+// banRecord is the protector's own record for ip (nil if it has none), read without side effects.
+func banRecord(s *srvkit.Server, ip string) *security.BanRecord {
+	for _, r := range s.Brute.GetBannedIPs() {
+		if r.IP == ip {
+			return r
+		}
+	}
+	return nil
+}
+
+// newBan tells whether the protector declared ip banned between the two readings: "perm" (no expiry date), "temp"
+// (an expiry date well beyond the behaviour), "none" (no new record, or one that does not outlast the behaviour).
+func newBan(before, after *security.BanRecord) string {
+	if after == nil || (before != nil && before.BannedAt.Equal(after.BannedAt) && before.ExpiresAt.Equal(after.ExpiresAt)) {
+		return "none"
+	}
+	if after.ExpiresAt.IsZero() {
+		return "perm"
+	}
+	if time.Until(after.ExpiresAt) > 10*time.Minute {
+		return "temp"
+	}
+	return "none"
 }
 
 type opT struct {
@@ -156,6 +199,7 @@ func (r *runner) msg(o opT) (fw.Event, string, string) {
 		return nil, "", "the server closed " + o.C + " earlier than the model expects"
 	}
 	ev := fw.Event{"ev": "Msg", "c": o.C, "k": o.K, "id": o.ID, "type": o.Type, "key": "garbage", "over": 0}
+	banBefore := banRecord(w.S, w.IP(o.C))
 	var resp *packet.HandshakeResponse
 	var err error
 	newid := "none"
@@ -234,6 +278,7 @@ func (r *runner) msg(o opT) (fw.Event, string, string) {
 		}
 	}
 	ev["out"] = out
+	ev["newban"] = newBan(banBefore, banRecord(w.S, w.IP(o.C))) // did the protector ban the address on this message?
 	w.S.Reap()
 	ev["post"] = r.post()
 	return ev, class, ""
@@ -261,9 +306,7 @@ func drive(env *fw.Env, b fw.Behaviour) *fw.Trace {
 	if len(ops) == 0 || ops[0].Exp == nil {
 		return &fw.Trace{Status: fw.DriverError, Note: "behaviour without model projection"}
 	}
-	s, err := srvkit.NewServer(srvkit.Options{HeartbeatTimeout: time.Hour, CleanupInterval: time.Hour,
-		BruteForce: &security.BruteForceConfig{MaxFailures: maxFail, TimeWindow: time.Hour, BanDuration: time.Hour,
-			PermanentBanAt: 1000, CleanupInterval: time.Hour}})
+	s, err := srvkit.NewServer(srvkit.Options{HeartbeatTimeout: time.Hour, CleanupInterval: time.Hour, BruteForce: bfConfig(ops[0].Exp)})
 	if err != nil {
 		return &fw.Trace{Status: fw.DriverError, Note: err.Error()}
 	}
@@ -287,8 +330,34 @@ func drive(env *fw.Env, b fw.Behaviour) *fw.Trace {
 				t.Note = fmt.Sprintf("stopped before step %d (%s %s): %s", i+1, o.K, o.Resp, why)
 			}
 		case "Ban":
-			s.Ban(r.w.IP(o.C), time.Hour)
-			ev = fw.Event{"ev": "Env", "k": "Ban", "c": o.C, "id": "none"}
+			// the operator's BanIP: temporary (outlasts the behaviour), permanent (duration 0), or a temporary ban
+			// that has run out by the time anything else happens (nobody asks IsBanned in between: the record stays)
+			how := o.How
+			switch how {
+			case "", "temp":
+				how = "temp"
+				s.Ban(r.w.IP(o.C), time.Hour)
+			case "perm":
+				s.Ban(r.w.IP(o.C), 0)
+			case "lapsed":
+				const brief = 30 * time.Millisecond
+				s.Ban(r.w.IP(o.C), brief)
+				time.Sleep(3 * brief)
+				if rec := banRecord(s, r.w.IP(o.C)); rec != nil && !time.Now().After(rec.ExpiresAt) {
+					return &fw.Trace{Status: fw.DriverError, Note: "a 30 ms ban is still running after 90 ms"}
+				}
+			default:
+				return &fw.Trace{Status: fw.DriverError, Note: "unknown ban kind " + how}
+			}
+			ev = fw.Event{"ev": "Env", "k": "Ban", "c": o.C, "id": "none", "how": how}
+		case "Unban":
+			s.Brute.UnbanIP(r.w.IP(o.C))
+			ev = fw.Event{"ev": "Env", "k": "Unban", "c": o.C, "id": "none"}
+		case "Cleanup":
+			// one tick of the two background clean-ups (what their one-minute tickers run)
+			s.Brute.VerifCleanup()
+			s.IPs.VerifCleanup()
+			ev = fw.Event{"ev": "Env", "k": "Cleanup", "c": "none", "id": "none"}
 		case "Blacklist":
 			// temporary entry (does not run out within the behaviour), permanent entry (duration 0),
 			// permanent range entry covering exactly this address
@@ -526,7 +595,7 @@ func driveCleanupRace(env *fw.Env, b fw.Behaviour) *fw.Trace {
 	t.Events = append(t.Events, fw.Event{"ev": "Env", "k": "CleanupScanned", "c": "c1", "id": "none"})
 	// the address is banned again (operator ban / threshold reached): in force from now on
 	s.Ban(ip, time.Hour)
-	t.Events = append(t.Events, fw.Event{"ev": "Env", "k": "Ban", "c": "c1", "id": "none"})
+	t.Events = append(t.Events, fw.Event{"ev": "Env", "k": "Ban", "c": "c1", "id": "none", "how": "temp"})
 	release()
 	select {
 	case <-done:
@@ -586,6 +655,7 @@ func selfTest(env *fw.Env, acc []*fw.Trace) []*fw.Trace {
 	for _, t := range acc {
 		done := map[int]bool{}
 		bl, wl := map[string]bool{}, map[string]bool{} // addresses on the blacklist / on the whitelist so far
+		ban := map[string]bool{}                       // addresses with a ban in force (made by the operator or by the protector itself)
 		for i, e := range t.Events {
 			if e["ev"] == "Env" {
 				c, _ := e["c"].(string)
@@ -594,10 +664,28 @@ func selfTest(env *fw.Env, acc []*fw.Trace) []*fw.Trace {
 					bl[c] = true
 				case "Whitelist":
 					wl[c] = true
+				case "Ban":
+					if e["how"] != "lapsed" {
+						ban[c] = true
+					}
+				case "Unban":
+					delete(ban, c)
 				}
 			}
 			if e["ev"] != "Msg" {
 				continue
+			}
+			// 6. a handshake from a banned address (whatever made the ban, before or after a clean-up tick) reported
+			// as successful
+			if c, _ := e["c"].(string); !done[6] && ban[c] && !e["out"].(map[string]any)["success"].(bool) {
+				done[6] = true
+				add(6, t, func(evs []fw.Event) []fw.Event {
+					evs[i]["out"].(map[string]any)["success"] = true
+					return evs
+				})
+			}
+			if nb, _ := e["newban"].(string); nb == "temp" || nb == "perm" {
+				ban[e["c"].(string)] = true
 			}
 			// 5. a handshake from a blacklisted address (whatever the shape of the entry, before or after a
 			// restart) reported as successful
@@ -660,7 +748,7 @@ func selfTest(env *fw.Env, acc []*fw.Trace) []*fw.Trace {
 				}
 			}
 		}
-		if len(out) >= 30 {
+		if len(out) >= 36 {
 			break
 		}
 	}
@@ -693,6 +781,7 @@ func main() {
 					job("handshake 3x3 depth 6, patched tree", "Session_c03t.cfg", "6", 0),
 					job("addresses (lists, restart) depth 8", "Session_c03addr.cfg", "8", 0),
 					job("stored secrets (undecryptable, reset) depth 9", "Session_c03key.cfg", "9", 0),
+					job("protector life-cycle (ban kinds, clean-up tick) depth 8", "Session_c03ban.cfg", "8", 0),
 					job("all environment actions depth 6", "Session_c03env.cfg", "6", 0),
 				})
 			}
@@ -700,6 +789,7 @@ func main() {
 				job("handshake 2x2 depth 6", "Session_c03.cfg", "6", 4),
 				job("addresses (lists, restart) depth 6", "Session_c03addr.cfg", "6", 4),
 				job("stored secrets (undecryptable, reset) depth 7", "Session_c03key.cfg", "7", 4),
+				job("protector life-cycle (ban kinds, clean-up tick) depth 6", "Session_c03ban.cfg", "6", 4),
 			}
 		},
 		GenJobs: func(env *fw.Env) []fw.TLCJob {
@@ -711,6 +801,7 @@ func main() {
 				return withTimeout(40*time.Minute, []fw.TLCJob{
 					gen("gen:addr", "Session_c03addr.cfg", "5"),
 					gen("gen:key", "Session_c03key.cfg", "6"),
+					gen("gen:ban", "Session_c03ban.cfg", "5"),
 					gen("gen:transitions 2x2", "Session_c03.cfg", "6"),
 					gen("gen:transitions 3x3", "Session_c03t.cfg", "4"),
 					{Name: "gen:simulate env", Module: "Session", Cfg: "Session_c03env.cfg", Workers: 4, Simulate: "num=4000", Depth: 15, Seed: env.Seed,
@@ -720,6 +811,7 @@ func main() {
 			return []fw.TLCJob{ // the environment graphs first: identical lines of later jobs are dropped, not these
 				gen("gen:addr", "Session_c03addr.cfg", "4"),
 				gen("gen:key", "Session_c03key.cfg", "5"),
+				gen("gen:ban", "Session_c03ban.cfg", "4"),
 				gen("gen:transitions 2x2", "Session_c03.cfg", "5"),
 				{Name: "gen:simulate env", Module: "Session", Cfg: "Session_c03env.cfg", Workers: 4, Simulate: "num=600", Depth: 11, Seed: env.Seed,
 					Consts: map[string]string{"FIXES": fixes, "LEVEL": "10", "EMIT": `"last"`}},
@@ -728,9 +820,9 @@ func main() {
 		// the short environment graphs are driven completely in the thorough tier; the big graphs are sampled
 		MaxBehSrc: func(env *fw.Env, src string) int {
 			if env.Tier == "thorough" {
-				return map[string]int{"gen:transitions 2x2": 30000, "gen:transitions 3x3": 12000, "gen:simulate env": 30000}[src]
+				return map[string]int{"gen:ban": 30000, "gen:transitions 2x2": 30000, "gen:transitions 3x3": 12000, "gen:simulate env": 30000}[src]
 			}
-			return map[string]int{"gen:addr": 4000, "gen:key": 3000, "gen:transitions 2x2": 3500, "gen:simulate env": 1500}[src]
+			return map[string]int{"gen:addr": 3500, "gen:key": 2500, "gen:ban": 3500, "gen:transitions 2x2": 3000, "gen:simulate env": 1500}[src]
 		},
 		// thorough: every behaviour that re-creates the address manager is driven over both value shapes of the store
 		Expand: func(env *fw.Env, src string, d json.RawMessage) []json.RawMessage {
@@ -763,6 +855,8 @@ func main() {
 			"an address on both lists is not 'blacklisted' for the judge (the statement is silent; the code lets the whitelist win); a ban of the protector bars it all the same",
 			"undecryptable stored secrets are written through the client configuration repository (sealed under another master key, noise, not base64, too short, empty); a secret reset is CloudControl.ResetClientCredentials, after which the first holder's key counts as nobody's key; a deleted client (Service.DeleteClient) is an unknown client from then on",
 			"credential expiry = Service.ExtendExpiration with a negative number of days, on anonymous clients and on clients bound to a user (Service.BindToUser); the judge takes 'expired' from the stored record (expiry date in the past)",
+			"time does not pass inside a behaviour except where the model says so: temporary bans and list entries last 1 h, a 'lapsed' ban is a 30 ms ban followed by a 90 ms sleep, the clean-up tickers (1 h) never fire on their own - the model's Cleanup action runs BruteForceProtector.VerifCleanup and IPManager.VerifCleanup (build tag verif)",
+			"the protector's threshold configuration comes from the model (MaxFailures = MaxFail; PermanentBanAt = MaxFailures in the ban configuration, out of reach elsewhere); a ban the protector's own table shows right after a message (no expiry date, or one beyond the behaviour) makes the address banned for the judge",
 			"the protector's clean-up pass is run with VerifCleanup and stopped at the yield point bf.unban.enter (build tag verif) to place a fresh ban between its scan and its removal",
 			"the brute-force threshold is configured to 3 failures (model constant MaxFail) so that organic bans occur inside short behaviours",
 			"the driver's classification of its own responses (whose key, over which challenge) is trusted",
